@@ -69,6 +69,32 @@ def systematic():
 CLASSES = {"enum", "enum-member", "valid", "optional-absent"}
 
 
+def nullable_enum_cases():
+    """enums whose type is [T, "null"] (both orders) and whose list names null: null is a member - at a required property, an array item and a definition - and
+    the other members and non-members behave as without the null"""
+    from vlib.kitchen import Case
+    out = []
+    n = 0
+    for t, vals, non in (("string", ["auto", "manual"], ["other", 1, True]), ("integer", [1, 2], [3, "1", 1.5]), ("number", [0.5, 2], [1, "0.5"]), ("boolean", [True], [False, "true"])):
+        for tl in ([t, "null"], ["null", t]):
+            for with_null in (True, False):
+                e = {"type": tl, "enum": vals + ([None] if with_null else [])}
+                root = {"type": "object", "$defs": {"E": e}, "properties": {"mode": e, "modes": {"type": "array", "items": e}, "r": {"$ref": "#/$defs/E"}}, "required": ["mode"]}
+                docs = []
+                for v in vals:
+                    docs.append({"doc": {"mode": v, "modes": [v]}, "cls": "enum-member", "path": ("mode",), "expect": "ACC"})
+                    docs.append({"doc": {"mode": vals[0], "r": v}, "cls": "enum-member", "path": ("r",), "expect": "ACC"})
+                for v in non:
+                    docs.append({"doc": {"mode": v}, "cls": "enum", "path": ("mode",), "expect": "REJ"})
+                    docs.append({"doc": {"mode": vals[0], "modes": [vals[0], v]}, "cls": "enum", "path": ("modes", 1), "expect": "REJ"})
+                if with_null:
+                    docs.append({"doc": {"mode": None, "modes": []}, "cls": "enum-member", "path": ("mode",), "expect": "ACC"})
+                    docs.append({"doc": {"mode": vals[0], "modes": [vals[-1], None]}, "cls": "enum-member", "path": ("modes", 1), "expect": "ACC"})
+                out.append(Case("c08ne%d" % n, root, docs, fam="nullable-enum/%s/%s/%s" % (t, "null-last" if tl[1] == "null" else "null-first", "lists-null" if with_null else "no-null"), no_model=True))
+                n += 1
+    return out
+
+
 def get_path(doc, path):
     for p in path:
         if isinstance(doc, dict):
@@ -90,7 +116,24 @@ def run(ctx):
     sysm = systematic() + [r for _, r in pairwise(only={"enum"})]
     n = 20 if ctx.tier == "quick" else 300
     cases = build_cases(ctx, len(sysm) + n, ["enum"], CLASSES | {"type"}, "c08x", extra_schemas=sysm, docs_per=2 if ctx.tier == "quick" else 3)
-    run_cases(ctx, cases, "c08")
+    ne = nullable_enum_cases()
+    run_cases(ctx, cases + ne, "c08")
+    nne = 0
+    for c in ne:
+        if not c.build_ok:
+            if nne < 3:
+                ctx.violation("oracle", dict(c.replay_obj(), gen_err=c.gen_err, build_err=c.build_err), "%s: generation failed or does not build: %s" % (c.fam, (c.gen_err or c.build_err)[:300]))
+            nne += 1
+            continue
+        ctx.cov["programs"] += 1
+        for di, d in enumerate(c.docs):
+            o = d.get("obs") or {}
+            ctx.count({"f": c.fam, "d": d["doc"]}, True, "nullable-enum")
+            if o.get("v") != d["expect"] and nne < 3:
+                ctx.violation("oracle", c.replay_obj(di), "%s: document %s (%s at %s) should be %s, the generated code answers %s %s" % (
+                    c.fam, json.dumps(d["doc"]), d["cls"], "/".join(map(str, d["path"])), d["expect"], o.get("v"), o.get("err", "")[:120]))
+                nne += 1
+                break
     def skip(c, d):
         # null at an optional (pointer) position is the generator-wide spelling of "absent" (see C09): not a membership question
         if d["cls"] != "enum" or not d["path"]:
